@@ -31,7 +31,9 @@ contract(
     props=["C01", "C02"],
     params={"self": LOOPX, "it": Any_, "length": Int, "context": CTX(), "limit": Opt(Int), "offset": Union(NoneT, Int, Const("continue"))},
     # the stop indexes remembered for `offset: continue` are never negative (established by _slice itself)
-    pre=["length >= 0", "forall(lambda k: implies(k in context.tag_namespace['stopindex'], context.tag_namespace['stopindex'][k] >= 0), 'str')"],
+    # `length` is a len() result (<= sys.maxsize); remembered stop indexes are never negative nor beyond such a length (established by _slice itself)
+    pre=["length >= 0 and length <= 9223372036854775807",
+         "forall(lambda k: implies(k in context.tag_namespace['stopindex'], context.tag_namespace['stopindex'][k] >= 0 and context.tag_namespace['stopindex'][k] <= 9223372036854775807), 'str')"],
     post=[
         # number of iterations: what is left after the offset, capped by the limit, never negative
         "implies(limit is None and offset is None, result[1] == length and window(result[0])[1] is None)",
@@ -48,7 +50,7 @@ contract(
         # ... and `offset: continue` resumes exactly there (0 when the loop has not run before)
         "implies(offset == 'continue' and f'{self.identifier}-{self.iterable}' in old(context.tag_namespace['stopindex']), window(result[0])[0] == old(context.tag_namespace['stopindex'])[f'{self.identifier}-{self.iterable}'])",
         "implies(offset == 'continue' and f'{self.identifier}-{self.iterable}' not in old(context.tag_namespace['stopindex']), window(result[0])[0] == 0)",
-        "forall(lambda k: implies(k in context.tag_namespace['stopindex'], context.tag_namespace['stopindex'][k] >= 0), 'str')",
+        "forall(lambda k: implies(k in context.tag_namespace['stopindex'], context.tag_namespace['stopindex'][k] >= 0 and context.tag_namespace['stopindex'][k] <= 9223372036854775807), 'str')",
     ],
     raises={},     # whatever limit/offset: no ValueError from islice, no AssertionError
 )
@@ -56,13 +58,15 @@ contract(
 contract(
     "liquid2.builtin.expressions:RangeLiteral._make_range",
     props=["C01", "C02"],
-    params={"self": Rec("RangeLiteral", _module="liquid2.builtin.expressions"),
+    params={"self": Rec("RangeLiteral", _module="liquid2.builtin.expressions", token=Any_),
             "start": Union(Int, Str, NoneT, Float, PosInf, NaN, ListOf("any")), "stop": Union(Int, Str, NoneT, PosInf)},
     globals_={"MAX_STR_INT": Int},
     pre=["MAX_STR_INT == 0 or MAX_STR_INT >= 640"],
     inline=["liquid2.limits:to_int"],
     post=["implies(isinstance(start, int) and isinstance(stop, int), range_len(result) == max(stop - start + 1, 0))",
-          "implies(isinstance(start, int) and isinstance(stop, int) and start <= stop, range_start(result) == start)"],
+          "implies(isinstance(start, int) and isinstance(stop, int) and start <= stop, range_start(result) == start)",
+          # whatever the operands: a range whose len() CPython can compute (a wider one is a LiquidValueError)
+          "range_len(result) <= 9223372036854775807"],
     raises={"LiquidValueError": None, "LiquidTypeError": None},
 )
 
